@@ -162,7 +162,7 @@ def run(tier: str) -> int:
     run_ = Run(P, tier, assumptions=[
         "operations outside the property's alphabet (removal starting outside a tracked range but overlapping one, additions overlapping tracked bytes) are not issued",
     ])
-    n = 6 if tier == "quick" else int(os.environ.get("C18_N", "12"))
+    n = int(os.environ.get("C18_N", "9" if tier == "quick" else "12"))
     run_.bounds = {"offsets": f"0..{n}", "depth": "fixed point (complete reachable set)"}
     res = explore(TrkWorld(n=n), procs=16 if tier == "thorough" else 8, check_cycles=False, validate_stride=53)
     run_.add(res)
